@@ -206,6 +206,77 @@ class AesRules:
         # the object keeps no state between blocks besides the round keys: every scratch cell read was written first (checked by
         # evaluation from an uninitialised scratch state: an uninitialised read would have produced a non-term value)
 
+    def stateless(self, which):
+        """R09.m: the block transform is a function of (round keys, block): a member of the cipher object that the transform itself
+        writes (scratch, caches) is never read in a call before that call has written it - otherwise what an earlier call left there
+        decides the result."""
+        prog, rec = self.prog, self.rec
+        sub, f = self.enc if which == 'enc' else self.dec
+        OBJ = ('ext', 'cipher')
+        BLK = ('ext', 'block')
+        km = self.key_member
+        first_read, written, order = {}, set(), [0]
+
+        def fld(loc):
+            if loc is None or loc[0] != OBJ or not loc[1] or not isinstance(loc[1][0], str) or loc[1][0] == km:
+                return None
+            return loc[1][0]
+
+        def ptr_fld(p):
+            return fld((p[1], p[2])) if p is not None and p[0] == 'p' else None
+
+        class Lst:
+            def rd(self, f_, node):
+                if f_ is not None and f_ not in written and f_ not in first_read:
+                    first_read[f_] = nloc(node) if isinstance(node, dict) else str(node)
+
+            def on_load(self, I, st, loc, val, node):
+                self.rd(fld(loc), node)
+
+            def on_store(self, I, st, loc, val, node):
+                f_ = fld(loc)
+                if f_ is not None:
+                    written.add(f_)
+                    allw.add(f_)
+
+            def on_memcpy(self, I, st, node, dst, src, size):
+                self.rd(ptr_fld(src), node)
+                f_ = ptr_fld(dst)
+                if f_ is not None:
+                    written.add(f_)
+                    allw.add(f_)
+
+            def on_memset(self, I, st, node, dst, val, size):
+                f_ = ptr_fld(dst)
+                if f_ is not None:
+                    written.add(f_)
+                    allw.add(f_)
+
+            def on_memcmp(self, I, st, node, args):
+                for a in args[:2]:
+                    self.rd(ptr_fld(a), node)
+
+            def on_enter(self, I, st, fn=None, **kw):
+                if fn is not None and fn.get('id') == f.get('id'):
+                    written.clear()
+        allw = set()
+        I = interp.Interp(prog, listeners=[Lst()], models=dict(models.STD_MODELS))
+        I.join_conditionals = True
+        st = interp.State()
+        self.rk_install(st, OBJ, (km,))
+        res = I.run(f, st, this=P(OBJ, ()), args=[P(BLK, (0,))])
+        rec.saw(I)
+        where = '%s:%s' % (f['file'], f['line'])
+        bad = sorted((f_, w) for f_, w in first_read.items() if f_ in allw)
+        for f_, w in bad:
+            # a cache that is kept consistent would be harmless, and whether it is is not decided here: the claim "equals FIPS-197 for
+            # every call" is then NOT established (undecided), which is never a pass
+            rec.ob('R09.m', 'R09.m@%s::reads-what-an-earlier-call-left::%s' % (fkey(f), f_.split('::')[-1]), None, w,
+                   '%s: member %s is read before this call has written it, and the transform writes it elsewhere: the result may depend on the blocks processed before' % (sub['q'], f_))
+        rec.ob('R09.m', 'R09.m@%s::function-of-key-and-block' % fkey(f), True if not bad else None, where,
+               '%s: members written by the transform: %s; none of them is read in a call before that call wrote it (%d paths)' % (
+                   sub['q'], sorted(x.split('::')[-1] for x in allw), len(res)))
+
     def ownership(self):
         """R09.o: a cipher object stays the function of (key, block) when it is copied: no class in its object graph releases, in a
         user-provided destructor, storage that its implicitly generated copy operations would share with the copy."""
